@@ -3,6 +3,7 @@ package object
 import (
 	"context"
 	"fmt"
+	"sync/atomic"
 
 	"github.com/risor-io/risor/errz"
 	"github.com/risor-io/risor/op"
@@ -117,15 +118,36 @@ func (c *Chan) Next(ctx context.Context) (Object, bool) {
 			return nil, false
 		}
 		c.lastReceived = value
-		c.rxCount++
+		atomic.AddInt64(&c.rxCount, 1)
 		return value, true
+	}
+}
+
+// NextEntry receives one value and returns it as an iterator entry in a single
+// step, without going through the lastReceived field that Next and Entry share.
+// The VM uses it for range loops, so that several goroutines can range over the
+// same channel without losing or duplicating values.
+func (c *Chan) NextEntry(ctx context.Context) (IteratorEntry, bool) {
+	select {
+	case <-ctx.Done():
+		return nil, false
+	case value, ok := <-c.value:
+		if !ok {
+			return nil, false
+		}
+		n := atomic.AddInt64(&c.rxCount, 1)
+		return &Entry{
+			key:     NewInt(n - 1),
+			value:   value,
+			primary: value,
+		}, true
 	}
 }
 
 func (c *Chan) Entry() (IteratorEntry, bool) {
 	if c.lastReceived != nil {
 		return &Entry{
-			key:     NewInt(c.rxCount - 1),
+			key:     NewInt(atomic.LoadInt64(&c.rxCount) - 1),
 			value:   c.lastReceived,
 			primary: c.lastReceived,
 		}, true
